@@ -29,7 +29,7 @@ RULE = ("one evaluation = one complete mapper run (map_workload_to_arch, or make
         "order (or a cache/clock/fault perturbation fired) and the reference front is non-empty. Distinct: "
         "SHA-1 of (spec, W, delivery order of every fan-in, perturbation list).")
 INTERLEAVING_MEASURE = "distinct tuples (call site, n_jobs, completion order) over all parallel() calls of a run"
-PROBES = ["unordered_permuted", "ordered_calls_completion_permuted", "straggler_overtaken", "lazy_calls",
+PROBES = ["unordered_permuted", "straggler_overtaken", "lazy_calls",
           "exec_order_permuted", "cache_epoch_clears", "cache_cold_start", "clock_jumps", "w1_runs", "wN_runs",
           "two_stage_runs", "join_twice_runs", "pickle_roundtrip_runs", "multi_row_fronts",
           "cache_dir_histories", "cache_warm_hit", "cache_variant_not_served_stale", "disk_fault_torn",
